@@ -22,12 +22,20 @@ Domain : (1) every .co file shipped in the repository (library, examples, docs, 
              several conversations: create_flow_configs_from_flow_list once, then State + initialize_state per attempt -, 0-2 of the
              flows carrying a statement the parser accepts and the expansion REJECTS (match / send of a flow or action, activate /
              deactivate of an event or an or-group, await / start of an event, alone or as a group member) at any place of the body;
-         (8) five enumerated families: Colang 1.0 goto fan-in (2-3 gotos to one label x 5 site shapes x forward / backward / both
+         (8) Colang 2.x flows that enter a RUNNING runtime (leg v2added): one LLMRails / RuntimeV2_x instance with a fixed configuration
+             (helper flows, a configured flow with control statements, a main flow that hands the `config` parameter of every Add
+             event to AddFlowsAction - the system action the library's LLM flow generation uses - and the `flow_ids` of every Remove
+             event to RemoveFlowsAction); 1-2 conversations of 1-3 Add events with 1-3 generated flows each (loop-leg bodies with
+             if / elif / else, while, break / continue, when; group-leg statements; plain bodies as control), with / without a flow
+             parameter, optionally referring to a flow added before (await / start / when / or-group / activate / $w = await) or
+             taking the name of a flow of an earlier event that is removed first;
+         (9) six enumerated families: Colang 1.0 goto fan-in (2-3 gotos to one label x 5 site shapes x forward / backward / both
              sides x label / checkpoint x label at top level / in a block x with / without a second label), Colang 2.x
              expansion-raises (18 rejected statements x 7 places x bad flow first / middle / last of three x rich / primitive rest),
              Colang 1.0 when chains (2-3 branches x ending of every branch x 9 surroundings),
-             Colang 2.x loop exits (13 neighbour sets x 5 chain forms x 5 branch-ending patterns x 6 placements) and Colang 2.x
-             group formulas with repetition (every formula of 2-4 member slots up to renaming x statement form x member kind).
+             Colang 2.x loop exits (13 neighbour sets x 5 chain forms x 5 branch-ending patterns x 6 placements), Colang 2.x
+             group formulas with repetition (every formula of 2-4 member slots up to renaming x statement form x member kind) and
+             Colang 2.x added flows (17 constructs that compile to labels x 6 ways of entering the running state).
 Oracle : static closure predicate over the compiled elements.
          2.x, after initialize_state: every element is a primitive the interpreter's `slide` executes (SpecOp send/match/
          _new_action_instance with a Spec - not a group dict - as spec; Label, Goto, ForkHead, MergeHeads, WaitForHeads,
@@ -39,6 +47,9 @@ Oracle : static closure predicate over the compiled elements.
          Every generated 2.x program: two compilations of the same parsed flows and a second state initialised on the flow configs
          of one compilation must all be closed.  Leg (7): every attempt is either rejected (initialize_state raises) or accepted,
          and every flow config of an accepted state must be closed - also when an earlier attempt on the same configs was rejected.
+         Leg (8): after every Add event whose flows AddFlowsAction reports as added, every flow config of the live state (configured,
+         added earlier, added now) must be closed by the same predicate - in particular every target of an added flow must be
+         resolved by that flow's own element_labels.
          1.0: every relative jump (_next, _next_else, _next_on_break, _next_on_continue) used by the element's type and every
          branch head lands inside [0, len(elements)]; absolute jumps are -1 (return) or inside the flow; every jump element has
          a target (`_next` present) and no goto / label element is left.
@@ -78,6 +89,12 @@ RULE = (
     "start / $z = await of an event, each alone and as a member of a group - x 7 places (first / last statement, while body, if / else "
     "block, when branch, if block inside a loop in front of a break) x the bad flow first / middle / last x its other statements need "
     "expansion or not; flow configs created once, three states initialised on them (756 cases). "
+    "family added-flow: one Colang 2.x flow per construct that compiles to labels - if, if-else (constant condition), if-elif-else, while "
+    "with continue / break branches, waiting while, nested while with inner break, when on an event, when / or when / else on flows, when "
+    "with break inside `while True`, await or- / and-group, nested mirrored group as a bare statement, start or-group, match or- / and-group, "
+    "when with group cases, or-group with a repeated member (17) - x how it enters a running LLMRails conversation through AddFlowsAction: "
+    "alone in the first Add event / behind another flow in the same event / in a second Add event / in the second conversation on the same "
+    "runtime / with a parameter and awaited by a second added flow / removed (RemoveFlowsAction) and added again (102 cases). "
     "generated: co2 programs (depth<=3 nesting of if/while/when, groups, break/continue, flows with parameters); co1 programs when the "
     "module is present; Colang 1.0 texts (label/checkpoint, goto, if/else, while with break/continue, when chains of 1-4 branches, return / "
     "return $v / stop / abort closing any block, every when branch independently as drawn / exit appended / exit alone, a third of the flows "
@@ -94,15 +111,26 @@ RULE = (
     "Colang 2.x re-initialisation programs (leg v2reinit, 2 of 17 generated cases): 1-4 flows with loop-leg bodies (statements, if chains, "
     "while loops, when), main activating 0-2 of them; 0 (1 in 6), 1 (4 in 6) or 2 flows / places carry a statement drawn from the 18 the "
     "expansion rejects, inserted into any block of the body at any position (never behind a closing break / continue); the flow configs are "
-    "created once and 2-3 states are initialised on them. Every other generated 2.x program is compiled twice from the same parsed flows and "
+    "created once and 2-3 states are initialised on them. Colang 2.x added flows (leg v2added, 2 of 19 generated cases): 1-2 conversations "
+    "on one LLMRails instance (fixed configuration: helper flows, one configured flow with while / if / break / continue / or-group, main = "
+    "`while True` / `when Add() as $e` -> `await AddFlowsAction(config=$e.config)`, `send Added(names=...)` / `or when Remove() as $e` -> "
+    "RemoveFlowsAction), each conversation 1-3 Add events, each event the source of 1-3 flows; a flow body is drawn like a loop-leg body (3 in 6: "
+    "statements, if / elif / else chains, bare / mixed while loops nested <= 2 with break / continue, when), as 1-2 group-leg statements at any "
+    "of their places (2 in 6) or as 1-3 statements that need no label (1 in 6, control); 1 in 3 flows take a parameter; 1 in 3 get one more "
+    "statement that refers to a flow added before it in this conversation, also one of the same event (await / start + match Finished / when "
+    "/ or-group with a configured flow / activate / $w = await; with an argument when that flow takes one); 1 in 6 take the name of a flow "
+    "added by an earlier event, which a Remove event removes first. All events go through RuntimeV2_x.process_events(blocking=True); the "
+    "flow configs are read from the returned State. Every other generated 2.x program is compiled twice from the same parsed flows and "
     "a further state is initialised on the flow configs of the second compilation. "
     "Shares are visible in the labels (goto-same-label>=2, goto-forward-same-label>=2 [/in-block], >=3, goto-backward-same-label>=2, "
     "goto-both-sides-of-label; bad-flows0|1|2, bad:<keyword>[-group], bad-in:top|while|if|elif|else|when, bad-inside-loop, bad-flow-first|middle|last, "
     "valid-flows-behind-bad-flow, bad-flow-with-composites|otherwise-primitive, attemptsN, outcomes:accepted|rejected; form:*, kind:*, place:*, repeated-member/<form>, member-twice-in-alternative, dup-alternative+distinct>=2/"
     "<form>, dup-alternative/all-same, dup-alternative-reordered, dnf-altsN, refs:first|all; when-late-exit@flow-end / @followed / @block-end, bare|mixed+only-exit-branch"
-    "@single|inner|outer, loop-nestN, elif-in-loop, exit-in-when). Non-trivial = a flow whose source nests composite constructs >= 2 deep, or "
+    "@single|inner|outer, loop-nestN, elif-in-loop, exit-in-when; v2added: convsN, batchesN, flows-in-batchN, added:loops|groups, added-has:if|while|when|group, "
+    "added/<loop and group shapes>, added-with-param, added-in-later-batch, added-uses-added-flow, added-uses:<form>, added-replaces-removed-flow; counters "
+    "v2added:flows-added-and-closed, added-flows-with-jumps, jump-and-fork-elements-checked). Non-trivial = a flow whose source nests composite constructs >= 2 deep, or "
     "uses break/continue, or a group; v1 texts: >= 3 jump offsets; loop programs: every loop has an exit or loops are nested; group programs: a nested group, a repeated member or >= 2 "
-    "alternatives; re-initialisation programs: >= 2 states initialised on the same flow configs (always); for files: a file "
+    "alternatives; re-initialisation programs: >= 2 states initialised on the same flow configs (always); added flows: at least one added flow compiled to >= 1 jump / fork; for files: a file "
     "whose flows compile to >= 1 jump/fork. Distinct by program text / file path."
 )
 ASSUMPTIONS = [
@@ -113,6 +141,15 @@ ASSUMPTIONS = [
     "An attempt that raises (any exception type) is a rejection and asserts nothing; it is not required that all attempts have the same "
     "outcome - only that every flow config of an accepted state is closed. A generated program WITHOUT a rejected statement that is "
     "rejected counts as a violation (compile-error), as in the other generated legs",
+    "flows that enter a running runtime: 'the loader' is also RuntimeV2_x._add_flows_action (system action AddFlowsAction, called by the "
+    "library's LLM flow generation): it parses the source, expands the elements, builds a FlowConfig and calls initialize_flow on the live "
+    "state; 'accepts' = the Added event of the harness' main flow lists exactly the names of the batch and they are in state.flow_configs. "
+    "The source reaches the action as the `config` parameter of an external event (public event API, no access to flow contexts); the "
+    "configuration starts with `# meta: exclude from llm` so that no embedding index is built. A batch the parser rejects (possible for "
+    "group statements, as in leg v2groups) or that is not reported as added is counted as skipped (labels rejected / not-loaded; 0 on the "
+    "unchanged tree), never as a violation; the added flows are not started - closure is a static predicate. One LLMRails instance per "
+    "worker process serves all cases (the runtime copies its flow-config dict into every new conversation, so added flows do not leak into "
+    "the next case); a violation seen there is re-run on a fresh instance and reported only if it reproduces (otherwise harness error)",
     "the statements the expansion rejects were established by probing (all raise ColangSyntaxError on the unchanged tree); `stop <flow>` "
     "(NotImplementedError without message) is not generated",
     "a send / match element whose spec is a bare flow or action (no member, not an event) counts as unexpanded: the expansion either "
@@ -186,6 +223,7 @@ def enumerate_cases(tier):
     yield from _v2_loops_family()
     yield from _v2_groups_family()
     yield from _v2_reinit_family()
+    yield from _v2_added_family()
 
 
 _V1_EXITS = ["return", "return", "return $v0", "stop", "abort"]  # statements that leave the flow
@@ -718,35 +756,41 @@ def _v2g_render_stmt(s, ind, out, refc):
     refc[0] += len(_v2g_leaves(f))
 
 
+def _v2g_items(items, out):
+    """Renders the group statements of one flow (each at its place) as lines of the flow body."""
+    refc = [0]
+    for it in items:
+        place, s = it["place"], it["stmt"]
+        if place == "top":
+            _v2g_render_stmt(s, 1, out, refc)
+        elif place == "while":
+            out.append("  while $x < 3")
+            _v2g_render_stmt(s, 2, out, refc)
+            out.append("    $x = $x + 1")
+        elif place == "while-break":
+            out.append("  while True")
+            _v2g_render_stmt(s, 2, out, refc)
+            out += ["    if $y == 1", "      break"]
+        elif place == "if":
+            out.append("  if $y == 0")
+            _v2g_render_stmt(s, 2, out, refc)
+        elif place == "else":
+            out += ["  if $y == 0", "    $y = 1", "  else"]
+            _v2g_render_stmt(s, 2, out, refc)
+        elif place == "when-branch":
+            out.append("  when Ev9()")
+            _v2g_render_stmt(s, 2, out, refc)
+            out += ["  or when Ev8()", "    $y = 2"]
+        else:
+            raise ValueError(place)
+    return out
+
+
 def _v2g_text(flows):
     out = []
     for fi, items in enumerate(flows):
-        refc = [0]
         out += [f"flow t{fi}", "  $x = 0", "  $y = 0"]
-        for it in items:
-            place, s = it["place"], it["stmt"]
-            if place == "top":
-                _v2g_render_stmt(s, 1, out, refc)
-            elif place == "while":
-                out.append("  while $x < 3")
-                _v2g_render_stmt(s, 2, out, refc)
-                out.append("    $x = $x + 1")
-            elif place == "while-break":
-                out.append("  while True")
-                _v2g_render_stmt(s, 2, out, refc)
-                out += ["    if $y == 1", "      break"]
-            elif place == "if":
-                out.append("  if $y == 0")
-                _v2g_render_stmt(s, 2, out, refc)
-            elif place == "else":
-                out += ["  if $y == 0", "    $y = 1", "  else"]
-                _v2g_render_stmt(s, 2, out, refc)
-            elif place == "when-branch":
-                out.append("  when Ev9()")
-                _v2g_render_stmt(s, 2, out, refc)
-                out += ["  or when Ev8()", "    $y = 2"]
-            else:
-                raise ValueError(place)
+        _v2g_items(items, out)
         out += ["  send Done()", ""]
     return _V2G_HEAD + "\n".join(out) + "\nflow main\n  match Never()\n"
 
@@ -1012,9 +1056,212 @@ def _v2_reinit_family():
                            "family": f"expansion-raises/{bad.split(' ')[0 if not bad.startswith('$') else 2]}/{hname}/{('first', 'middle', 'last')[pos]}"}
 
 
+# ---------------------------------------------------------------------------------------------
+# Colang 2.x flows that enter a RUNNING runtime: AddFlowsAction (what the library's LLM flow generation calls) parses the source,
+# builds FlowConfigs from the already expanded elements and initialises them in the live state.  A case is
+# {"leg": "v2added", "convs": [[batch, ...], ...]}: 1-2 conversations on ONE LLMRails / RuntimeV2_x instance, each with 1-3 Add events
+# (batches) of 1-3 flow definitions.  A definition is {"kind": "loops", "body": <v2loops AST>} | {"kind": "groups", "items":
+# [{"place", "stmt"}, ...]} plus "param" (the flow takes a parameter), "use": [k, form] | None (one more statement that awaits / starts /
+# activates / waits in a when or an or-group for the k-th flow added before it in this conversation) and "replace": k | None (the
+# definition takes the name of the k-th flow of an earlier batch, which a RemoveFlowsAction removes first).
+
+_V2A_HOST = (
+    "# meta: exclude from llm\n\n"  # keeps the flows out of the LLM flow index: no embedding model is needed
+    + _V2R_HEAD
+    + _V2G_HEAD
+    + "flow configured $t\n  $n = 0\n  while $n < 2\n    $n = $n + 1\n    if $n == 1\n      continue\n    else\n      break\n  await h0 or h1\n\n"
+    + "flow main\n  while True\n    when Add() as $e\n      $added = await AddFlowsAction(config=$e.config)\n      send Added(names=$added)\n"
+    + "    or when Remove() as $e\n      await RemoveFlowsAction(flow_ids=$e.flow_ids)\n      send Removed()\n"
+)
+_V2A_USES = ["await", "start", "when", "or-group", "activate", "assign"]
+
+
+def _v2a_name(n):
+    return f"dyn f{n}"
+
+
+def _v2a_use_lines(form, name, arg):
+    ref = name + arg
+    if form == "await":
+        return [f"  await {ref}"]
+    if form == "start":
+        return [f"  start {ref} as $u0", "  match $u0.Finished()"]
+    if form == "when":
+        return [f"  when {ref}", "    $y = 5", "  or when Ev1()", "    $y = 6"]
+    if form == "or-group":
+        return [f"  await {ref} or h0"]
+    if form == "activate":
+        return [f"  activate {ref}"]
+    return [f"  $w = await {ref}"]
+
+
+def _v2a_flow_text(fd, name, use):
+    """Source of one flow definition; `use` = (form, name of an earlier added flow, argument text) or None."""
+    out = ["flow " + name + (" $t" if fd.get("param") else ""), "  $x = 0", "  $y = 0"]
+    if fd["kind"] == "loops":
+        out.append('  start UtteranceBotAction(script="a") as $a0')
+        _v2l_render(fd["body"], 1, out)
+    else:
+        _v2g_items(fd["items"], out)
+    if use is not None:
+        out += _v2a_use_lines(*use)
+    out.append("  send Done()")
+    return "\n".join(out) + "\n"
+
+
+def _v2a_plan(case):
+    """The events of a case: per conversation a list of steps {"remove": [names], "text": source, "names": [names], "defs": [...]}.
+    Names are assigned here (so a definition is pure data): new flows are numbered in the order they are added."""
+    convs = []
+    for batches in case["convs"]:
+        steps, order, present, params, count = [], [], [], {}, 0
+        for batch in batches:
+            earlier = list(order)  # flows of earlier batches (in the order they were added first)
+            remove, names, texts, used = [], [], [], []
+            for fd in batch:
+                name = None
+                if fd.get("replace") is not None and earlier:
+                    cand = earlier[fd["replace"] % len(earlier)]
+                    if cand not in names:
+                        name = cand
+                        if cand in present:
+                            present.remove(cand)
+                            remove.append(cand)
+                if name is None:
+                    name = _v2a_name(count)
+                    count += 1
+                    order.append(name)
+                use = None
+                if fd.get("use") is not None and present:
+                    target = present[fd["use"][0] % len(present)]
+                    use = (fd["use"][1], target, ' "v"' if params[target] else "")
+                    used.append(fd["use"][1])
+                texts.append(_v2a_flow_text(fd, name, use))
+                names.append(name)
+                present.append(name)
+                params[name] = bool(fd.get("param"))
+            steps.append({"remove": remove, "text": "\n".join(texts), "names": names, "uses": used})
+        convs.append(steps)
+    return convs
+
+
+def _v2a_shape(case, plan):
+    labels = {f"convs{len(case['convs'])}"}
+    for batches, steps in zip(case["convs"], plan):
+        labels.add(f"batches{len(batches)}")
+        for bi, (batch, step) in enumerate(zip(batches, steps)):
+            labels.add(f"flows-in-batch{len(batch)}")
+            if bi > 0:
+                labels.add("added-in-later-batch")
+            if step["remove"]:
+                labels.add("added-replaces-removed-flow")
+            for form in step["uses"]:
+                labels.add("added-uses-added-flow")
+                labels.add("added-uses:" + form)
+            for fd in batch:
+                labels.add("added:" + fd["kind"])
+                if fd.get("param"):
+                    labels.add("added-with-param")
+                if fd["kind"] == "loops":
+                    for x in _v2l_shape(fd["body"]):
+                        if x in ("loop-bare", "loop-mixed", "only-exit-branch", "exit-in-when", "elif-in-loop", "loop-nest2", "loop-nest3"):
+                            labels.add("added/" + x)
+                    kinds = {s[0] for b, _, _ in _v2r_blocks(fd["body"]) for s in b}
+                    for k in ("if", "while", "when"):
+                        if k in kinds:
+                            labels.add("added-has:" + k)
+                    if any(s[0] == "s" and s[2] == 1 and (" or " in s[1] or " and " in s[1]) for b, _, _ in _v2r_blocks(fd["body"]) for s in b):
+                        labels.add("added-has:group")
+                else:
+                    labels.add("added-has:group")
+                    for x in _v2g_shape([fd["items"]]):
+                        if x.startswith("form:") or x in ("repeated-member", "nested-group"):
+                            labels.add("added/" + x)
+    return sorted(labels)
+
+
+@st.composite
+def _v2a_flow(draw):
+    kind = draw(st.sampled_from(["loops", "loops", "loops", "groups", "groups", "plain"]))
+    if kind == "groups":
+        fd = {"kind": "groups", "items": [{"place": draw(st.sampled_from(_V2G_PLACES)), "stmt": draw(_v2g_stmt())} for _ in range(draw(st.integers(1, 2)))]}
+    elif kind == "plain":  # control: nothing but statements that need no label
+        fd = {"kind": "loops", "body": [draw(_v2l_leaf(True)) for _ in range(draw(st.integers(1, 3)))]}
+    else:
+        depth = draw(st.integers(1, 2))
+        body = []
+        for _ in range(draw(st.integers(1, 2))):
+            if draw(st.booleans()):
+                body += draw(_v2l_block(depth, False, False, 1, 2))
+            else:
+                body.append(draw(_v2l_while(depth)))
+        fd = {"kind": "loops", "body": body}
+    fd["param"] = draw(st.sampled_from([False, False, True]))
+    fd["use"] = [draw(st.integers(0, 7)), draw(st.sampled_from(_V2A_USES))] if draw(st.integers(0, 2)) == 0 else None
+    fd["replace"] = draw(st.integers(0, 7)) if draw(st.integers(0, 5)) == 0 else None
+    return fd
+
+
+@st.composite
+def _v2_added_case(draw):
+    convs = []
+    for _ in range(draw(st.sampled_from([1, 1, 2]))):
+        convs.append([[draw(_v2a_flow()) for _ in range(draw(st.sampled_from([1, 1, 2, 3])))] for _ in range(draw(st.sampled_from([1, 1, 2, 3])))])
+    return {"leg": "v2added", "convs": convs}
+
+
+def _v2_added_family():
+    """Enumerated: one flow per construct that compiles to labels (if / elif / else chains, while loops with break / continue, nested
+    loops, when / or when / else, every kind of group) x how it enters the runtime (alone in
+    the first Add event, behind another flow in the same event, in a second event, in the second conversation of the same runtime,
+    with a parameter and awaited by a second added flow, removed and added again)."""
+    m, a, g = ["s", "match Ev0()", 0], ["s", "$x = $x + 1", 0], ["s", "$y = 1", 0]
+
+    def loops(*body):
+        return {"kind": "loops", "body": list(body), "param": False, "use": None, "replace": None}
+
+    def group(form, kind, f, **kw):
+        return {"kind": "groups", "items": [{"place": "top", "stmt": dict({"form": form, "kind": kind, "fs": [f], "refs": 0}, **kw)}], "param": False, "use": None, "replace": None}
+
+    constructs = {
+        "if": loops(["if", [["$x == 0", [g]]], None]),
+        "if-else": loops(["if", [["False", [["s", "send Out0()", 0]]]], [["s", "send Out1(v=$x)", 0]]]),
+        "if-elif-else": loops(["if", [["$x == 1", [g]], ["$y == 1", [a]]], [["s", 'log "t"', 0]]]),
+        "while-exits": loops(["while", "$x < 3", [a, ["if", [["$x == 2", [["x", "continue"]]], ["$x == 3", [["x", "break"]]]], None]]], ["s", "send Out0()", 0]),
+        "while-waiting": loops(["while", "$x < 3", [m, a]]),
+        "while-nested": loops(["while", "$x < 3", [m, ["while", "$y < 2", [["s", "match Ev1()", 0], ["s", "$y = $y + 1", 0], ["if", [["$y == 2", [["x", "break"]]]], None]]], a]]),
+        "when-event": loops(["when", [["Ev0()", [a]]], None]),
+        "when-or-when-else": loops(["when", [["h0", [["s", "send Out0()", 0]]], ["h1", [["s", "send Out1(v=$x)", 0]]]], [g]]),
+        "when-in-loop-exit": loops(["while", "True", [["when", [["Ev0()", [["x", "break"]]], ["Ev1()", [a]]], None]]]),
+        "await-or-group": group("await", "flow", ["or", [0, 1]]),
+        "await-and-group": group("await", "flow", ["and", [0, 1]]),
+        "bare-nested-group": group("bare", "flow", ["and", [["or", [0, 1]], ["or", [1, 0]]]]),
+        "start-or-group": group("start", "mixed", ["or", [0, 1]]),
+        "match-or-group": group("match", "event", ["or", [0, 1]]),
+        "match-and-group": group("match", "event", ["and", [0, 1]]),
+        "when-group-cases": group("when", "mixed-event", ["or", [0, 1]], **{"else": True}),
+        "await-repeated-member": group("await", "flow", ["or", [0, 1, 0]]),
+    }
+    plain = loops(m, ["s", "send Out0()", 0])
+    other = loops(["if", [["$y == 0", [a]]], [g]], ["s", "await h0 or h1", 1])
+    for cname, fd in constructs.items():
+        entries = {
+            "alone": [[[fd]]],
+            "behind-another-flow": [[[plain, fd]]],
+            "second-event": [[[other], [fd]]],
+            "second-conversation": [[[other]], [[fd]]],
+            "param-and-awaited": [[[dict(fd, param=True), dict(plain, use=[0, "await"])]]],
+            "re-added": [[[fd, plain], [dict(fd, replace=0)]]],
+        }
+        for ename, convs in entries.items():
+            yield {"leg": "v2added", "convs": convs, "family": f"added-flow/{cname}/{ename}"}
+
+
 @st.composite
 def _case(draw):
-    leg = draw(st.integers(0, 16))
+    leg = draw(st.integers(0, 18))
+    if leg >= 17:
+        return draw(_v2_added_case())
     if leg >= 15:
         return draw(_v2_reinit_case())
     if leg >= 12:
@@ -1381,9 +1628,109 @@ def _check_v2_reinit(case):
     return text, labels, has_bad, outcomes
 
 
+_v2a = {}
+
+
+def _v2a_loop():
+    import asyncio
+
+    lp = _v2a.get("loop")
+    if lp is None or lp.is_closed():
+        lp = asyncio.new_event_loop()
+        asyncio.set_event_loop(lp)
+        _v2a["loop"] = lp
+    return lp
+
+
+def _v2a_rails(fresh=False):
+    """One LLMRails instance per worker process (the runtime copies its flow-config dict into every new conversation state, so flows
+    added in one conversation are not seen by the next); `fresh` builds a new one to confirm a violation."""
+    if fresh or "rails" not in _v2a:
+        from nemoguardrails import LLMRails, RailsConfig
+
+        _v2a_loop()
+        rails = LLMRails(RailsConfig.from_content(_V2A_HOST, 'colang_version: "2.x"\nmodels: []'))
+        if fresh:
+            return rails
+        _v2a["rails"] = rails
+    return _v2a["rails"]
+
+
+def _check_v2_added(plan, fresh=False):
+    """Runs the conversations of a v2added case through RuntimeV2_x.process_events (public event API): every Add event hands the source
+    of a batch to AddFlowsAction.  After every event that added its flows EVERY flow config of the live state - configured flows, flows
+    added before, flows added now - must be closed.  Returns (stats, None) or (stats, reason why a batch was not loaded)."""
+    rails = _v2a_rails(fresh)
+    lp = _v2a_loop()
+    stats = {"added": 0, "added-with-jumps": 0, "targets": 0, "events": 0}
+    try:
+        for ci, steps in enumerate(plan):
+            state = None  # a new conversation on the same runtime
+            for si, step in enumerate(steps):
+                where = f"conversation {ci + 1}, Add event {si + 1}"
+                if step["remove"]:
+                    out, state = lp.run_until_complete(rails.runtime.process_events([{"type": "Remove", "flow_ids": step["remove"]}], state=state, blocking=True))
+                    stats["events"] += 1
+                    if not any(e["type"] == "Removed" for e in out) or any(n in state.flow_configs for n in step["remove"]):
+                        return stats, f"{where}: RemoveFlowsAction did not remove {step['remove']}"
+                out, state = lp.run_until_complete(rails.runtime.process_events([{"type": "Add", "config": step["text"]}], state=state, blocking=True))
+                stats["events"] += 1
+                added = [e.get("names") for e in out if e["type"] == "Added"]
+                if added != [step["names"]] or any(n not in state.flow_configs for n in step["names"]):
+                    return stats, f"{where}: AddFlowsAction reported {added} instead of {step['names']}"
+                for name, cfg in state.flow_configs.items():
+                    bad, st_ = check_v2_flow(cfg)
+                    if bad:
+                        new = name in step["names"]
+                        what = "added by this event" if new else "added by an earlier event" if name.startswith("dyn ") else "of the configuration"
+                        # report a dangling target in preference to a label that is merely not indexed (same root cause, clearer message)
+                        first = next((b for b in bad if b[0].startswith("dangling")), bad[0])
+                        raise Violation("v2-added-" + first[0], f"{where}: flow {name!r} ({what}) of the running state is not closed: {first[1]} ({len(bad)} defects in this flow)\nsource handed to AddFlowsAction:\n{step['text']}")
+                    if name in step["names"]:
+                        stats["added"] += 1
+                        stats["added-with-jumps"] += 1 if st_["jumps"] + st_["forks"] else 0
+                        stats["targets"] += st_["jumps"] + st_["forks"]
+    except BaseException as e:
+        if not isinstance(e, Violation):  # watchdog / harness trouble: forget the instance and the loop
+            lp = _v2a.pop("loop", None)
+            _v2a.clear()
+            if lp is not None and not lp.is_closed() and not lp.is_running():
+                lp.close()
+        raise
+    return stats, None
+
+
 def prop(case):
     if case["leg"] == "file":
         return _file_case(case)
+    if case["leg"] == "v2added":
+        plan = _v2a_plan(case)
+        text = "\n".join(f"# conversation {ci + 1}, Add event {si + 1}" + (f" (after RemoveFlowsAction {st_['remove']})" if st_["remove"] else "") + "\n" + st_["text"] for ci, steps in enumerate(plan) for si, st_ in enumerate(steps))
+        labels = ["v2added"] + _v2a_shape(case, plan)
+        if case.get("family"):
+            parts = case["family"].split("/")
+            labels += ["family:" + parts[0], "family:" + parts[0] + "/construct=" + parts[1], "family:" + parts[0] + "/entry=" + parts[2]]
+        for steps in plan:
+            for st_ in steps:
+                try:
+                    smh.parse(st_["text"])
+                except Exception as e:  # as in the v2groups leg: the statement quantifies over flows the loader accepts
+                    return ok(skip="v2 added flows not accepted by the parser: " + type(e).__name__, labels=["v2added", "rejected"], view={"program": text})
+        try:
+            stats, failed = _check_v2_added(plan)
+            confirm = False
+        except Violation:
+            confirm = True
+        if confirm:
+            # instance reuse must not be able to fabricate a finding: confirm on a fresh LLMRails instance (raises the violation)
+            _check_v2_added(plan, fresh=True)
+            raise RuntimeError("v2added: a violation on the per-worker LLMRails instance did not reproduce on a fresh one:\n" + text)
+        if failed:
+            return ok(skip="v2 added flows not loaded: " + failed, labels=["v2added", "not-loaded"], view={"program": text})
+        counters = {"v2added:flows-added-and-closed": stats["added"], "v2added:added-flows-with-jumps": stats["added-with-jumps"],
+                    "v2added:jump-and-fork-elements-checked": stats["targets"], "v2added:events-processed": stats["events"]}
+        counters.update({"v2added:" + x: 1 for x in labels if x.startswith(("convs", "batches", "added-", "added:"))})
+        return ok(nt=stats["added-with-jumps"] > 0, labels=labels, view={"program": text}, counters=counters)
     if case["leg"] == "v1text":
         from nemoguardrails.colang import parse_colang_file
 
